@@ -396,15 +396,30 @@ def check_derive(case):
         return f
     shown = ' '.join(words)
     res = []
-    for _ in range(2):
-        ok, k = call(keys.mnemonic_to_wallet_key, list(words))
+    # the same 24 words as a list and then as another sequence type Python callers hand over (tuple, one-shot iterator,
+    # generator): a form the function does not take may raise, but it never yields ANOTHER key
+    form = case.get('form', 'list')
+    for attempt in range(2):
+        if attempt == 0 or form == 'list':
+            arg = list(words)
+        elif form == 'tuple':
+            arg = tuple(words)
+        elif form == 'iter':
+            arg = iter(list(words))
+        else:
+            arg = (w for w in list(words))
+        ok, k = call(keys.mnemonic_to_wallet_key, arg)
+        if not ok and attempt == 1 and form != 'list':
+            res.append(res[0])
+            continue
         if not ok:
             return Fail(f'mnemonic_to_wallet_key/raises/{exc_sig(k)}', f'{k!r}; mnemonic: {shown}')
         if not isinstance(k, (tuple, list)) or len(k) != 2:
             return Fail('mnemonic_to_wallet_key/not-a-(public,secret)-pair', f'{k!r}'[:200])
         res.append((bytes(k[0]), bytes(k[1])))
     if res[0] != res[1]:
-        return Fail('mnemonic_to_wallet_key/not-deterministic', f'{res[0][0].hex()} vs {res[1][0].hex()}; mnemonic: {shown}')
+        return Fail('mnemonic_to_wallet_key/not-deterministic' + ('' if form == 'list' else '/words-given-as-' + form),
+                    f'{res[0][0].hex()} vs {res[1][0].hex()}; mnemonic: {shown}')
     exp = refkeys.wallet_key(words)
     if res[0][0] != exp[0]:
         return Fail('mnemonic_to_wallet_key/public-key-differs-from-documented-derivation',
@@ -422,13 +437,14 @@ def enum_mnemonic_valid(tier):
 
 
 def enum_derive(tier):
-    n = 5 if tier == 'quick' else 50
+    n = 8 if tier == 'quick' else 56
     for i in range(n):
+        form = ('iter', 'tuple', 'generator', 'list')[(i // 2) % 4]
         if i % 2 == 0:
-            yield {'i': i}
+            yield {'i': i, 'form': form}
         else:
             h = hashlib.sha512(b'c20/derive/%d' % i).digest()
-            yield {'idx': [int.from_bytes(h[2 * j:2 * j + 2], 'big') % 2048 for j in range(24)]}
+            yield {'idx': [int.from_bytes(h[2 * j:2 * j + 2], 'big') % 2048 for j in range(24)], 'form': form}
 
 
 def classify_mnemonic(case):
@@ -449,5 +465,5 @@ SUBCHECKS = [
         note='fresh mnemonic_new() draws (os.urandom inside the library): 20 quick / 500 thorough'),
     Sub('mnemonic-derive', check_derive, enum=enum_derive, classify=classify_mnemonic, nontrivial=lambda c: False,
         shards=(5, 25), case_cpu_s=180.0,
-        note='mnemonic_to_wallet_key twice + reference derivation (3 x PBKDF2 100000 rounds per case): 5 quick / 50 thorough'),
+        note='mnemonic_to_wallet_key twice + reference derivation (3 x PBKDF2 100000 rounds per case): 8 quick / 56 thorough; the second call takes the words as tuple / iterator / generator'),
 ]
